@@ -20,8 +20,8 @@ type baseGroup struct {
 }
 
 var baseGroups = map[string]baseGroup{
-	"DECLARED": {"DECLARED", "C08", runCopyOnly, nil,
-		"each call is judged by the rules declared for it: the per-type rule information shared through the type cache is never written by a walker (rule C08-COPY)", 1},
+	"DECLARED": {"DECLARED", "C08", runC08, ruleIn("C08-COPY", "C08-KEY"),
+		"each call is judged by the rules declared for it under the tag name it asked for: the per-type rule information shared through the type cache is never written by a walker (rule C08-COPY) and is stored and looked up under everything it depends on, the requested tag name included (rule C08-KEY)", 2},
 	"STATE": {"STATE", "C11", func(c *Ctx) {
 		runC11Global(c, "C11")
 		runC11Pool(c, "C11")
